@@ -106,3 +106,14 @@ chk("C07", "exploration",
     "Sound for rules that only update the constrained node's own entry (true for all seven analyses). Work-list permutation is only an amplifier, never a verdict.",
     "runtime monitoring: in-process invariant hook (reference fix-point + consultation probes) and metamorphic declaration re-ordering",
     "DESIGN.md §4 C07")
+
+chk("C09", "exploration",
+    "Generated declaration graphs (structs, typedefs, enums, unnamed enums, macros, globals, functions; needs relation incl. pointers "
+    "and function-pointer members; names that are proper prefixes/suffixes of each other) x selections of 1..3 allowlist kinds x pattern "
+    "forms (literal, prefix.*, alternation, character class, .*suffix) with optional overlapping blocklist and --no-recursive-allowlist. "
+    "Inventories of the allowlisted and the full run give: selected subset of emitted; emitted subset of closure; closure subset of emitted "
+    "(recursive); equality (non-recursive); blocklisted roots absent; token identity of items and their layout assertions; rustc accepts "
+    "the allowlisted output alone.",
+    "Python re.fullmatch is the reference for anchored matching on the restricted syntax; derive attributes are compared only when neither a blocklist nor --no-recursive-allowlist is involved (both legitimately change derives).",
+    "runtime monitoring: metamorphic allowlisted-vs-full inventories against a generator-side dependency model",
+    "DESIGN.md §4 C09")
